@@ -293,7 +293,7 @@ func run(raw json.RawMessage) (common.Case, error) {
 			}
 			mk = common.Some(common.Z(now - *b.MarkAge))
 		}
-		bs = append(bs, common.App("mk_mblk", common.App("mk_b", zOf(id), common.Z(0), common.List(ss)), mk))
+		bs = append(bs, common.App("mk_mblk", common.App("mk_b", zOf(id), common.Z(0), common.List(ss), common.Z(0)), mk))
 	}
 	ins := objstore.WithNoopInstr(bkt)
 	logger := log.NewNopLogger()
@@ -407,6 +407,7 @@ type binfo struct {
 	id      ulid.ULID
 	group   string
 	sources []ulid.ULID
+	level   int
 }
 
 func readInfo(bkt objstore.Bucket, id ulid.ULID) (*binfo, error) {
@@ -419,7 +420,7 @@ func readInfo(bkt objstore.Bucket, id ulid.ULID) (*binfo, error) {
 	if err := json.NewDecoder(r).Decode(&m); err != nil {
 		return nil, err
 	}
-	return &binfo{id: id, group: m.Thanos.GroupKey(), sources: m.Compaction.Sources}, nil
+	return &binfo{id: id, group: m.Thanos.GroupKey(), sources: m.Compaction.Sources, level: m.Compaction.Level}, nil
 }
 
 func runCompact(in input) (common.Case, error) {
@@ -572,7 +573,7 @@ func runCompact(in input) (common.Case, error) {
 		for _, u := range bi.sources {
 			ss = append(ss, num[u])
 		}
-		return common.App("mk_b", common.Z(num[bi.id]), common.Z(groups[bi.group]), common.ZList(ss))
+		return common.App("mk_b", common.Z(num[bi.id]), common.Z(groups[bi.group]), common.ZList(ss), common.Z(int64(bi.level)))
 	}
 	sort.Slice(initial, func(i, j int) bool { return initial[i].Compare(initial[j]) < 0 })
 	var bs, os_ []string
